@@ -2,7 +2,8 @@
    Partial by construction: x/staking itself is exercised through the history driver; the
    machine below keeps the pool/ledger bookkeeping of every Layer flow that moves stake. *)
 From Coq Require Import ZArith List.
-From Verif Require Import Model.Escrow Model.Ledger Proofs.EscrowProofs.
+From Coq Require Import String.
+From Verif Require Import Base.Harness Model.Escrow Model.Ledger Proofs.EscrowProofs Proofs.LedgerProofs.
 Import ListNotations.
 Open Scope Z_scope.
 
@@ -32,3 +33,26 @@ Theorem C05_return_to_unbonded_refuted :
   exists s amount, pinv s /\ 0 < amount <= p_dispute s /\ ~ pinv (pstep_return_as_found s amount).
 Proof. exact return_as_found_refuted. Qed.
 Print Assumptions C05_return_to_unbonded_refuted.
+
+(* what the pools hold beyond the ledger never shrinks: every operation keeps it, a return adds exactly the
+   dust of its entries; along every history it is monotone *)
+Theorem C05_slack_step s o s' : pstep s o = Some s' ->
+  pslack s' = pslack s + match o with PReturn _ dust _ => dust | _ => 0 end /\
+  0 <= match o with PReturn _ dust _ => dust | _ => 0 end.
+Proof. exact (pstep_slack s o s'). Qed.
+Print Assumptions C05_slack_step.
+
+Theorem C05_slack_monotone ops s : pslack s <= pslack (fold_left pstep_total ops s).
+Proof. exact (prun_slack_monotone ops s). Qed.
+Print Assumptions C05_slack_monotone.
+
+(* the executable specification evaluated after every operation of the real histories means: pools cover the
+   ledgers, shares positive, tokens non-negative, per-backer fee records sum to their totals, and the slack
+   grew by between 0 and 64 units *)
+Theorem C05_check_sound before op signer res params after decs :
+  c05_step before (Step op signer res params after decs) = [] ->
+  sp_bonded_ledger after <= sp_bonded after /\ sp_notbonded_ledger after <= sp_notbonded after /\
+  sp_shares_pos after = true /\ sp_tokens_nonneg after = true /\ sp_records_sum after = true /\
+  pool_slack before <= pool_slack after <= pool_slack before + 64.
+Proof. exact (c05_step_sound before op signer res params after decs). Qed.
+Print Assumptions C05_check_sound.
